@@ -589,19 +589,23 @@ macro_rules! impl_engine {
                             lock(&sh).log.push(Rec::LocChanged { what: "element".into(), before: Some((start, end)), after: Some(after) });
                         }
                         let set_names: Vec<String> = ops.iter().filter_map(|o| if let Op::SetAttr(n, _) = o { Some(n.to_ascii_lowercase()) } else { None }).collect();
-                        let mut seen: Vec<String> = vec![];
+                        // (hash maps: the monitor must stay linear in the number of attributes - C15 measures work)
+                        let mut first_pre: HashMap<&str, &AttrRec> = HashMap::new();
+                        for p in rec.attrs.iter() {
+                            first_pre.entry(p.name.as_str()).or_insert(p);
+                        }
+                        let mut seen: std::collections::HashSet<String> = std::collections::HashSet::new();
                         for a in el.attributes() {
                             let n = a.name();
-                            if seen.contains(&n) {
+                            if !seen.insert(n.clone()) {
                                 continue;
                             }
-                            seen.push(n.clone());
                             let (nl, vl) = (a.name_source_location().map(loc), a.value_source_location().map(loc));
                             if set_names.contains(&n) {
                                 if nl.is_some() || vl.is_some() {
                                     lock(&sh).log.push(Rec::LocChanged { what: format!("attribute {n:?} was set by this handler, its locations must be None (name, then value)"), before: nl, after: vl });
                                 }
-                            } else if let Some(pre) = rec.attrs.iter().find(|p| p.name == n) {
+                            } else if let Some(pre) = first_pre.get(n.as_str()) {
                                 if (pre.name_loc, pre.value_loc) != (nl, vl) {
                                     lock(&sh).log.push(Rec::LocChanged { what: format!("untouched attribute {n:?}: value location before / after the handler's edits"), before: pre.value_loc, after: vl });
                                     if pre.name_loc != nl {
